@@ -1,6 +1,7 @@
 package eng
 
 import (
+	"bytes"
 	"fmt"
 
 	"mossverif/model"
@@ -31,6 +32,8 @@ type GenParams struct {
 	FinalReopen            bool // end with a caught-up reopen
 	Idle                   bool // use idle merger cycles
 	NoPersistSteps         bool
+	Keys                   []string // explicit key pool (overrides DenseKeys/NKeys)
+	HostileVals            bool     // values with hostile lengths / contents
 }
 
 // GenConfig draws a configuration for the steered engine.
@@ -87,8 +90,60 @@ type genState struct {
 	tree *model.Coll
 }
 
+// HostileBytes returns byte strings that resemble the store's own framing
+// or sit on page boundaries.
+func HostileBytes(r *Rng, forKey bool) []byte {
+	magicB := []byte("0m1o2s0m1o2s")
+	magicE := []byte("3s4p5s3s4p5s")
+	le32 := func(v uint32) []byte { return []byte{byte(v), byte(v >> 8), byte(v >> 16), byte(v >> 24)} }
+	switch r.Intn(12) {
+	case 0:
+		return []byte{}
+	case 1:
+		return bytes.Repeat([]byte{0}, 1+r.Intn(9))
+	case 2:
+		return bytes.Repeat([]byte{0xff}, 1+r.Intn(9))
+	case 3: // footer begin: magic x2, version 4, plausible length
+		b := append([]byte{}, magicB...)
+		b = append(b, le32(4)...)
+		b = append(b, le32(uint32(r.Pick(0, 28, 60, 200, 1<<20)))...)
+		return b
+	case 4:
+		return append([]byte{}, magicE...)
+	case 5: // header look-alike
+		return []byte("moss-data-store:\n{\"Version\":4}\n")
+	case 6:
+		n := r.Pick(4095, 4096, 4097, 8191, 8192, 8193)
+		if forKey {
+			n = r.Pick(255, 256, 4095, 4096, 4097)
+		}
+		b := bytes.Repeat([]byte{byte('A' + r.Intn(26))}, n)
+		return b
+	case 7: // page-sized with magic at what could become a page start
+		b := append([]byte{}, magicB...)
+		b = append(b, le32(4)...)
+		b = append(b, le32(0)...)
+		b = append(b, bytes.Repeat([]byte{'x'}, r.Pick(4096, 8192)-len(b))...)
+		return b
+	case 8:
+		return []byte{0x00, 0xff, 0x00, 0xff}
+	case 9:
+		return []byte("\x00")
+	default:
+		n := r.Intn(40)
+		b := make([]byte, n)
+		for i := range b {
+			b[i] = byte(r.Intn(256))
+		}
+		return b
+	}
+}
+
 func (g *genState) val() []byte {
 	g.uniq++
+	if g.gp.HostileVals && g.r.Chance(2, 3) {
+		return HostileBytes(g.r, false)
+	}
 	switch g.r.Intn(10) {
 	case 0:
 		return []byte{} // empty value (not unique)
@@ -249,8 +304,7 @@ var mergerParks = []string{"merger.ingested", "merger.merged"}
 var persisterParks = []string{"persister.updated", "store.persist.begin", "store.persist.segments", "store.persist.footer", "store.persist.end",
 	"store.compact.begin", "store.compact.segments", "store.compact.footer", "store.compact.swapped"}
 
-// GenProgram generates a steered program.
-func GenProgram(r *Rng, prop string, cfg Config, gp GenParams) *Program {
+func newGenState(r *Rng, gp GenParams) *genState {
 	g := &genState{r: r, gp: gp, tree: model.New()}
 	nk := gp.NKeys
 	if nk <= 0 || nk > len(DenseKeys) {
@@ -274,6 +328,25 @@ func GenProgram(r *Rng, prop string, cfg Config, gp GenParams) *Program {
 			g.keys = append(g.keys, DenseKeys[i])
 		}
 	}
+	if len(gp.Keys) > 0 {
+		g.keys = append([]string{}, gp.Keys...)
+	}
+	return g
+}
+
+// BatchGen generates a stream of batches with the program generator's
+// batch shapes (for engines that have their own step language).
+type BatchGen struct{ g *genState }
+
+// NewBatchGen creates a batch generator.
+func NewBatchGen(r *Rng, gp GenParams) *BatchGen { return &BatchGen{g: newGenState(r, gp)} }
+
+// Next returns the next batch.
+func (b *BatchGen) Next() *model.Batch { return b.g.batch() }
+
+// GenProgram generates a steered program.
+func GenProgram(r *Rng, prop string, cfg Config, gp GenParams) *Program {
+	g := newGenState(r, gp)
 	p := &Program{Prop: prop, Seed: r.S, Cfg: cfg}
 	nb := gp.MinBatches + r.Intn(gp.MaxBatches-gp.MinBatches+1)
 	store := cfg.Backing == "store"
